@@ -15,6 +15,7 @@ import (
 	"strconv"
 	"strings"
 	"sync"
+	"sync/atomic"
 	"syscall"
 	"time"
 )
@@ -450,6 +451,8 @@ func RunCheck(o Options) int {
 	var mu sync.Mutex
 	var outs []outcome
 	var wg sync.WaitGroup
+	var suspects int32
+	const maxSuspects, maxConfirmed = 12, 3
 	for i := 0; i < nw; i++ {
 		wg.Add(1)
 		go func(i int) {
@@ -457,6 +460,13 @@ func RunCheck(o Options) int {
 			errPath := filepath.Join(runDir, fmt.Sprintf("worker%d.stderr", i))
 			var w *worker
 			for c := range queue {
+				if atomic.LoadInt32(&suspects) >= maxSuspects {
+					// a tree on which this many cases do not return is broken; do not spend hours on the rest
+					mu.Lock()
+					outs = append(outs, outcome{c: c, res: Result{ID: c.ID, Class: c.Class, Verdict: Inconclusive, Msg: fmt.Sprintf("not run: %d cases had already hit the watchdog", maxSuspects)}})
+					mu.Unlock()
+					continue
+				}
 				if w == nil {
 					var err error
 					w, err = startWorker(o.Bin, o.ID, wenv, errPath)
@@ -468,6 +478,9 @@ func RunCheck(o Options) int {
 					}
 				}
 				oc, alive := runCaseOn(w, c, 1)
+				if oc.suspect {
+					atomic.AddInt32(&suspects, 1)
+				}
 				if !alive {
 					w = nil
 				} else if oc.res.Recycle {
@@ -488,9 +501,14 @@ func RunCheck(o Options) int {
 	wg.Wait()
 
 	// isolated confirmation of watchdog suspects (nothing else running)
-	unconfirmed := 0
+	unconfirmed, confirmed := 0, 0
 	for i := range outs {
 		if !outs[i].suspect {
+			continue
+		}
+		if confirmed >= maxConfirmed {
+			outs[i].res.Verdict = Inconclusive
+			outs[i].res.Msg = fmt.Sprintf("watchdog fired; not re-run in isolation because %d other cases were already confirmed as not returning: %s", maxConfirmed, outs[i].res.Msg)
 			continue
 		}
 		errPath := filepath.Join(runDir, fmt.Sprintf("confirm%d.stderr", i))
@@ -505,6 +523,7 @@ func RunCheck(o Options) int {
 		}
 		if oc.suspect {
 			first := outs[i].res
+			confirmed++
 			oc.res.Verdict = Violated
 			oc.res.Msg = "no return within the watchdog in the parallel run AND in an isolated re-run with twice the allowance: " + first.Msg + " / " + oc.res.Msg
 			outs[i] = oc
